@@ -6,6 +6,7 @@ plan = json.load(open('/verif/plan.json'))
 meta = json.load(open('/verif/manifest_meta.json'))
 props = [json.loads(l) for l in open('/verif/properties.jsonl')]
 hooks = meta["hooks"]
+hooks["source_commits"] = subprocess.check_output(["git","-C","/repo","log","--reverse","--format=%h %s","--grep","^verif hooks"], text=True).strip().splitlines()
 checks, na = [], []
 for p in props:
     pid = p["id"]
